@@ -438,6 +438,9 @@ func RunPlans(rp *hk.Reporter, plans []Plan, budget *hk.Budget, verbose bool) *S
 				var last *Result
 				for k := 0; k < 3 && ok; k++ {
 					res, verdict := RunOne(f, v.Ops, v.Eager)
+					if res == nil {
+						res = &Result{} // the execution ended in a scheduler verdict (a panic in the code under test)
+					}
 					last = res
 					m := res.Mismatch
 					if m == nil && verdict != "" {
